@@ -266,6 +266,13 @@ def subparts(t, v):
     elif k == "tuple":
         for c, x in zip(t.children, v):
             yield c, x
+    elif k == "dataclass":
+        from jsonargparse import Namespace
+
+        d = vars(v) if isinstance(v, Namespace) else v
+        for name, ft in G.DATACLASS_FIELD_T.get(t.extra, {}).items():
+            if isinstance(d, dict) and name in d:
+                yield ft, d[name]
 
 
 def case_container(ctx, rng):
